@@ -264,7 +264,7 @@ class Parser:
             pstate.advance()
             from pymbolic.primitives import LogicalNot
             left_exp = LogicalNot(
-                    self.parse_expression(pstate, _PREC_UNARY))
+                    self.parse_expression(pstate, _PREC_LOGICAL_AND))
         elif pstate.is_next(_bitwisenot):
             pstate.advance()
             from pymbolic.primitives import BitwiseNot
